@@ -127,6 +127,15 @@ def o_keygen(ctx, case):
                   f"{suite.__name__}.KeyGen={got} model={want}")
     again = G2Basic.KeyGen(ikm, info)
     ctx.check(again == outs[0], "keygen", "nondeterministic", case, "two calls differ")
+    bi, bk = bytearray(ikm), bytearray(info)
+    try:
+        got_ba = G2Basic.KeyGen(bi, bk)
+    except (TypeError, ValidationError):
+        ctx.label("keygen:bytearray_refused")          # a stricter type gate would be legitimate
+    else:
+        ctx.check(got_ba == want, "keygen", "bytearray_mismatch", case, f"KeyGen on bytearray arguments = {got_ba}")
+        ctx.check(bytes(bi) == ikm and bytes(bk) == info, "keygen", "argument_mutated", case,
+                  "KeyGen changed the bytearray it was given")
     ctx.label(f"keygen:ikm_len={'<32' if len(ikm) < 32 else '>=32'}")
     if info:
         ctx.label("keygen:info_nonempty")
@@ -199,11 +208,16 @@ def t_hkdf(ctx, shard, n):
 
 def t_keygen(ctx, shard, n):
     ex = [{"ikm": hx(seed), "info": ""} for seed, _ in vectors.EIP2333] + \
-         [{"ikm": "", "info": ""}, {"ikm": "00" * 32, "info": "00"},
+         [{"ikm": "", "info": ""}, {"ikm": "00" * 32, "info": "00"}, {"ikm": "11" * 32, "info": "0030"},
+          {"ikm": "22" * 32, "info": hx(b"validator-0") + "0030"}, {"ikm": "33" * 32, "info": "00300030"},
           {"ikm": "", "info": "", "explicit_info": True}]
     strat = st.fixed_dictionaries({
         "ikm": sized_binary((0, 1, 16, 31, 32, 33, 64, 128), 128).map(hx),
-        "info": st.one_of(st.just(""), sized_binary((0, 1, 2, 32, 64), 64).map(hx)),
+        "info": st.one_of(st.just(""), sized_binary((0, 1, 2, 32, 64), 64).map(hx),
+                          # key_info that already ends like the suffix KeyGen appends (I2OSP(48, 2) = 00 30)
+                          st.tuples(st.binary(max_size=40), st.sampled_from([b"\x00\x30", b"\x00", b"\x30", b"\x00\x30\x00\x30",
+                                                                             b"\x30\x00", b"\x00\x20", b"0"])).map(
+                              lambda t: hx(t[0] + t[1]))),
     })
     drive(ctx, f"keygen{shard}", strat, lambda c: o_keygen(ctx, c), n, ex if shard == 0 else ())
     drive(ctx, f"retry{shard}", strat, lambda c: o_keygen_retry(ctx, c), max(2, n // 20),
